@@ -33,7 +33,7 @@ func (c19) Info(t core.Tier) core.Info {
 	}
 }
 
-func (c19) NumCases(t core.Tier) int { return tierN(t, 30000, 800000) }
+func (c19) NumCases(t core.Tier) int { return tierN(t, 30000, 3000000) }
 
 // scribble overwrites every mutable part of a destination in place (elements of slices, pointees, fields).
 func scribble(v reflect.Value, depth int) {
@@ -408,7 +408,7 @@ func (c19) RunCase(c *core.Ctx) {
 			// whether a post-transform ran before another node failed depends on the visit order (tolerated): the values carried by issues are left out
 			res = obs.Multiset(out.Issues, func(ci obs.CI) string { return ci.Key + "|" + ci.Triple() + "|" + ci.Message + "|" + ci.Params })
 		}
-		key := fmt.Sprintf("%s|%x|%v", mode, obs.Snapshot(input), spare) // (an appending transform sees whether an empty slice owns a buffer)
+		key := fmt.Sprintf("%s|%s|%x|%v", mode, obs.Render(obs.Norm(input)), obs.Snapshot(input), spare) // (an appending transform sees whether an empty slice owns a buffer)
 		if prev, ok := firstResult[key]; ok && prev != res {
 			c.Violation("schema-behaves-differently-on-later-use|"+mode.String(), det(map[string]any{"first_result": prev, "this_result": res}))
 			return
